@@ -472,6 +472,13 @@ NEUTRAL_UNRECOGNISED = {
     # copied back are the bytes write_int() would produce is a fact about buffer contents, not about the shape of the code;
     # C06 answers "unrecognised" (exit 2) for it and says so (DESIGN 11.16)
     "C06g/refactor4.diff": "byte-level head memo in CdnsEncoder",
+    # (repaired variants of round-F seeds, DESIGN 11.19)
+    # a new encoder primitive that writes a whole index list in runs whose length is computed from m_avail by a division: the
+    # emission grammar does not know the primitive and R06.2 does not decide the computed reservation - C01, C02, C06 exit 2
+    "C10j/refactor1.diff": "CdnsEncoder::write_array in runs sized by m_avail / MAX_INDEX_SIZE",
+    # a look-aside of the last address and its index, validated by `index < table.size() && address == last` and parked out of
+    # range by clear(): whether a remembered index still addresses its entry is a question about histories - R02.6 / R11.6 exit 2
+    "C12j/refactor1.diff": "look-aside of the last IP address and its table index in CdnsBlock",
 }
 for _pf in sorted(_glob.glob(_os.path.join(_HERE, "neutral", "*", "refactor*.diff"))):
     _dir = _os.path.basename(_os.path.dirname(_pf))
